@@ -7,6 +7,7 @@ import (
 	"math"
 	"testing"
 
+	"github.com/cinar/indicator/v2/trend"
 	"pgregory.net/rapid"
 	"verif/harness/engine"
 	"verif/harness/gen"
@@ -139,9 +140,105 @@ func props() []engine.AnyProp {
 	for _, ind := range reg.All() {
 		ps = append(ps, prop(ind))
 	}
-	return ps
+	return append(ps, intProps()...)
 }
 
 func TestC01(t *testing.T) { engine.RunAll(t, props(), false) }
 
 func TestReplay(t *testing.T) { engine.Replay(t, "C01", props()) }
+
+// ---- structural indicators over int (exact comparison) ----
+
+type intCase struct {
+	P  int   `json:"p"`
+	Xs []int `json:"xs"`
+}
+
+func intProps() []engine.AnyProp {
+	type spec struct {
+		name  string
+		run   func(p int, c <-chan int) <-chan int
+		model func(p int, w []int) int
+	}
+	specs := []spec{
+		{"MovingSum[int]", func(p int, c <-chan int) <-chan int { return trend.NewMovingSumWithPeriod[int](p).Compute(c) }, func(p int, w []int) int {
+			s := 0
+			for _, x := range w {
+				s += x
+			}
+			return s
+		}},
+		{"MovingMax[int]", func(p int, c <-chan int) <-chan int { return trend.NewMovingMaxWithPeriod[int](p).Compute(c) }, func(p int, w []int) int {
+			m := w[0]
+			for _, x := range w {
+				if x > m {
+					m = x
+				}
+			}
+			return m
+		}},
+		{"MovingMin[int]", func(p int, c <-chan int) <-chan int { return trend.NewMovingMinWithPeriod[int](p).Compute(c) }, func(p int, w []int) int {
+			m := w[0]
+			for _, x := range w {
+				if x < m {
+					m = x
+				}
+			}
+			return m
+		}},
+		{"Sma[int]", func(p int, c <-chan int) <-chan int { return trend.NewSmaWithPeriod[int](p).Compute(c) }, func(p int, w []int) int {
+			s := 0
+			for _, x := range w {
+				s += x
+			}
+			return s / p
+		}},
+	}
+	var out []engine.AnyProp
+	for _, sp := range specs {
+		sp := sp
+		out = append(out, engine.Prop[intCase]{
+			ID: "C01", Subject: sp.name,
+			Gen: func(t *rapid.T) intCase {
+				c := intCase{P: rapid.IntRange(1, 9).Draw(t, "p")}
+				vals := rapid.SampledFrom([]int{0, 0, 1, -1, 2, 5, -5, 7, 100, -100, math.MaxInt32, math.MinInt32}).Draw
+				n := rapid.IntRange(0, 3*c.P+6).Draw(t, "n")
+				for i := 0; i < n; i++ {
+					if rapid.Bool().Draw(t, "small") {
+						c.Xs = append(c.Xs, rapid.IntRange(-3, 3).Draw(t, "x"))
+					} else {
+						c.Xs = append(c.Xs, vals(t, "xv"))
+					}
+				}
+				return c
+			},
+			Check: func(c intCase) engine.Outcome {
+				var o engine.Outcome
+				res := pipe.Run1([][]int{c.Xs}, pipe.Opts{}, func(cs []<-chan int) <-chan int { return sp.run(c.P, cs[0]) })
+				if !res.OK() {
+					o.Failf("%s period %d on %v: %s: %s", sp.name, c.P, c.Xs, res.Verdict, res.Detail)
+					return o
+				}
+				var want []int
+				for i := c.P - 1; i < len(c.Xs); i++ {
+					want = append(want, sp.model(c.P, c.Xs[i-c.P+1:i+1]))
+				}
+				if len(res.Outs[0]) != len(want) {
+					o.Failf("%s period %d on %v: %d values %v, want %d %v", sp.name, c.P, c.Xs, len(res.Outs[0]), res.Outs[0], len(want), want)
+					return o
+				}
+				for i := range want {
+					if res.Outs[0][i] != want[i] {
+						o.Failf("%s period %d on %v: value #%d is %d, the window ending at position %d gives %d", sp.name, c.P, c.Xs, i, res.Outs[0][i], i+c.P-1, want[i])
+						return o
+					}
+				}
+				o.NonTrivial = len(want) > 0
+				o.Add("positions_compared", len(want))
+				o.Key = fmt.Sprint(c.P, c.Xs)
+				return o
+			},
+		})
+	}
+	return out
+}
